@@ -3,13 +3,19 @@ from .common import *
 from .rows_mp11 import ENUMS, DROP2
 HI = 'backmp11/detail/history_impl.hpp'; SB = 'backmp11/detail/state_machine_base.hpp'
 UNITS = []
+def wrong_mode(prefix, arg, obj):
+    """the traversal of a machine's OWN active substates must be the non-recursive one (nested machines enter / exit their substates themselves):
+    every other spelling - another visit_mode, or the default overload visit(v), which is active_recursive - becomes a stub whose precondition is false"""
+    out = [dict(name='visit-other-mode-' + m, pat='%svisit < visit_mode :: %s > ( %s ) ;' % (prefix, m, arg), rep='visit_wrong_mode ( %s ) ;' % obj, min=0, max=1)
+           for m in ('active_recursive', 'all_non_recursive', 'all_recursive', 'active_states', 'all_states')]
+    return out + [dict(name='visit-default-overload', pat='%svisit ( %s ) ;' % (prefix, arg), rep='visit_wrong_mode ( %s ) ;' % obj, min=0, max=1)]
 HRW = [dict(name='array-assign-init', pat='sm -> m_active_state_ids = value_array < InitialStateIds > ;', rep='ARRAY_ASSIGN ( sm -> m_active_state_ids , g_init_ids16 ) ;', min=0, max=1),
        dict(name='array-assign-last', pat='sm -> m_active_state_ids = self -> m_last_active_state_ids ;', rep='ARRAY_ASSIGN ( sm -> m_active_state_ids , self -> m_last_active_state_ids ) ;', min=0, max=1),
        dict(name='array-assign-save', pat='self -> m_last_active_state_ids = sm -> m_active_state_ids ;', rep='ARRAY_ASSIGN ( self -> m_last_active_state_ids , sm -> m_active_state_ids ) ;', min=0, max=1),
        dict(name='SCOPE-pool-member', pat='StateMachine :: event_pool_member :: value', rep='StateMachine_event_pool_member_value', min=0, max=1),
        dict(name='CONT-clear', pat='sm -> get_event_pool ( ) . events . clear ( ) ;', rep='pool_clear ( sm ) ;', min=0, max=1),
        dict(name='overload-ids', pat='on_entry ( sm , event ) ;', rep='SET_IDS_THEN ( hist_on_entry_ids ( self , sm , event ) ) ;', min=0, max=1),
-       dict(name='visit-active', pat='sm -> visit < visit_mode :: active_non_recursive > ( visitor ) ;', rep='visit_active_entry ( sm ) ;', min=0, max=1)]
+       dict(name='visit-active', pat='sm -> visit < visit_mode :: active_non_recursive > ( visitor ) ;', rep='visit_active_entry ( sm ) ;', min=0, max=1)] + wrong_mode('sm -> ', 'visitor', 'sm')
 xfh = back_xform(['mp_contains'], refparams=('sm',), members=['m_last_active_state_ids'], enums=ENUMS, drop=DROP2, rewrites=HRW)
 SCOPES = {0: 'class history_impl < no_history , InitialStateIds >', 1: 'class history_impl < always_shallow_history , InitialStateIds >', 2: 'class history_impl < shallow_history < Events ... > , InitialStateIds >'}
 for pol, sc in SCOPES.items():
@@ -39,7 +45,7 @@ MRW = [dict(name='CRTP-on_entry', pat='( ( front_end_t * ) ( self ) ) -> on_entr
        dict(name='visitor-object', pat='state_entry_visitor < Event > visitor { self , event } ;', rep='', min=0, max=1),
        dict(name='history-entry', pat='self -> m_history . on_entry ( self , event , visitor ) ;', rep='m_history_on_entry_visit ( self , event ) ;', min=0, max=1),
        dict(name='history-exit', pat='self -> m_history . on_exit ( self ) ;', rep='m_history_on_exit ( self ) ;', min=0, max=1),
-       dict(name='visit-active-exit', pat='visit < visit_mode :: active_non_recursive > ( [ self , & event ] $$A $$B ) ;', rep='visit_active_exit ( self , event ) ;', min=0, max=1)]
+       dict(name='visit-active-exit', pat='visit < visit_mode :: active_non_recursive > ( [ self , & event ] $$A $$B ) ;', rep='visit_active_exit ( self , event ) ;', min=0, max=1)] + wrong_mode('', '[ self , & event ] $$A $$B', 'self')
 GUARDS = {'event_processing_reset': 'event_processing_reset_dtor'}
 # the scope guard's destructor (RAII): extracted and called where C++ unwinding / scope exit runs it (GUARD rule); absent -> empty body
 GUARD_DTOR = Part(SB, ['struct event_processing_reset'], '~ event_processing_reset ( )', optional=True,
@@ -78,7 +84,7 @@ UNITS.append(Unit('backmp11.on_explicit_entry', ['C09', 'C08', 'C02', 'C04', 'C1
                   dict(name='visitor-object', pat='state_entry_visitor < Event > visitor { self , event } ;', rep='ALL_IDS_SET ( ) ;', min=1, max=1),
                   dict(name='visitor-call', pat='auto & state = self -> get_state ( State ) ; visitor ( state ) ;', rep='visitor_call_state ( self , State ) ;', min=0, max=1),
                   dict(name='visitor-call2', pat='auto & state = get_state ( State ) ; visitor ( state ) ;', rep='visitor_call_state ( self , State ) ;', min=0, max=1),
-                  dict(name='visit-active', pat='visit < visit_mode :: active_non_recursive > ( visitor ) ;', rep='visit_active_entry2 ( self ) ;', min=0, max=1)])), GUARD_DTOR],
+                  dict(name='visit-active', pat='visit < visit_mode :: active_non_recursive > ( visitor ) ;', rep='visit_active_entry2 ( self ) ;', min=0, max=1)] + wrong_mode('', 'visitor', 'self'))), GUARD_DTOR],
     'void on_explicit_entry(fsm_t* self, event_t event, fsm_t* fsm)', 'cascade_mp11.spec.h', compose='@0', file_scope=GUARD_FS,
     loops={0: '__CPROVER_assigns(state_identity, __CPROVER_object_upto(self->m_active_state_ids, sizeof(self->m_active_state_ids)))\n'
               '__CPROVER_loop_invariant(0 <= state_identity && state_identity <= g_nt)\n'
